@@ -498,11 +498,47 @@ class Engine:
         if name in ("startswith", "endswith"):
             f = z3.PrefixOf if name == "startswith" else z3.SuffixOf
             return mk("bool", f(as_str_term(args[0]), as_str_term(val)))
+        if name == "split" and args and isinstance(args[0], str) and len(args[0]) >= 1:
+            return self.str_split(c, val, args[0], args[1] if len(args) > 1 else kwargs.get("maxsplit", -1), node)
+        if name == "lstrip" and len(args) == 1 and isinstance(args[0], str) and len(args[0]) == 1:
+            t = as_str_term(val)
+            r = M.str_lstrip1(t, z3.StringVal(args[0]))
+            # facts: val = k copies of the character followed by r, and r does not start with it
+            c.assume(z3.SuffixOf(r, t))
+            c.assume(z3.Not(z3.PrefixOf(z3.StringVal(args[0]), r)))
+            c.assume(z3.Implies(z3.Not(z3.PrefixOf(z3.StringVal(args[0]), t)), r == t))
+            return mk("str", r)
+        if name == "replace" and len(args) == 2 and all(isinstance(x, str) for x in args):
+            return mk("str", M.str_replace_all(as_str_term(val), z3.StringVal(args[0]), z3.StringVal(args[1])))
         if name == "lower":
             return mk("str", M.str_lower(as_str_term(val)))
         if name == "strip" and not args:
             return mk("str", M.str_strip(as_str_term(val)))
         raise Undecided(f"str.{name} on symbolic string (line {getattr(node, 'lineno', '?')})")
+
+    def str_split(self, c, val, sep, maxsplit, node):
+        """s.split(sep[, maxsplit]) on a symbolic string: the number of parts is decided by forking on the occurrences of sep
+        (up to 3 parts are built exactly; more parts are represented by their count only)."""
+        t = as_str_term(val)
+        sepv = z3.StringVal(sep)
+        ok, ms = concrete(maxsplit)
+        if not ok:
+            raise Undecided("split with symbolic maxsplit")
+        parts, rest = [], t
+        limit = ms if ms is not None and ms >= 0 else 3
+        while len(parts) < limit:
+            if not c.branch(z3.Contains(rest, sepv)):
+                break
+            i = z3.IndexOf(rest, sepv, 0)
+            parts.append(mk("str", z3.SubString(rest, 0, i)))
+            rest = z3.SubString(rest, i + len(sep), z3.Length(rest) - i - len(sep))
+        if (ms is None or ms < 0) and len(parts) == limit and c.branch(z3.Contains(rest, sepv)):
+            # more than `limit`+1 parts: only the count is represented
+            n = smt.fresh(smt.Int, "nparts")
+            c.assume(n > limit + 1)
+            return c.alloc("list", None, SymSeq(SV("int", n), lambda c_, i_: SV("str", smt.fresh(smt.S, "part")), "split"))
+        parts.append(mk("str", rest))
+        return c.alloc("list", None, parts)
 
     # ------------------------------------------------------------------ verification of one function
     def explore(self, label, run_path, roots=None, split_only=False):
